@@ -1,7 +1,69 @@
 import Mutagen.Driver.Util
+import Mutagen.Model.Handshake
 namespace Mutagen.Driver.C34
+open Mutagen.Driver Mutagen.Model.Handshake
 
-/-- Model-side handler for one line of the C34 correspondence stream. -/
-def handle (_line : String) : String := "unimplemented"
+/-!
+Lines:
+* `<fn> <incoming hex> <wcap>` with `fn` ∈ `c` (ClientHandshake then
+  ClientVersionHandshake, as in agent.connect), `s` (ServerHandshake then
+  ServerVersionHandshake, as in mutagen-agent), `cm` `cv` `sm` `sv` (the four
+  functions on their own); `wcap` is `-` (unlimited) or the number of bytes the
+  transport accepts before failing. Answer: `<err> <sent hex> <consumed>`.
+* `rv <incoming hex>`: receiveVersion. Answer `<major> <minor> <patch> <err> <consumed>`.
+* `x <fault s→c> <fault c→s>`: real client against real server through a
+  channel with one fault per direction (`n`, `t<k>` cut after k bytes,
+  `f<k>.<xx>` xor byte k with xx). Answer `<client err> <server err> <client sent> <server sent>`.
+-/
+
+def showErr : Err → String
+  | .ok => "ok" | .eof => "eof" | .ueof => "ueof" | .werr => "werr" | .reject => "reject"
+
+def parseCap (s : String) : Option (Option Nat) :=
+  if s == "-" then some none else s.toNat?.map some
+
+def parseFault (s : String) : Option Fault :=
+  match s.toList with
+  | ['n'] => some .none
+  | 't' :: k => (String.ofList k).toNat?.map .trunc
+  | 'f' :: rest =>
+    match (String.ofList rest).splitOn "." with
+    | [k, x] => do
+      match ← decHex x with
+      | [v] => pure (.flip (← k.toNat?) v)
+      | _ => none
+    | _ => none
+  | _ => none
+
+def fnOf : String → Option (Params × (Params → Stream → Stream × Err))
+  | "c" => some (clientParams, clientConnect)
+  | "s" => some (serverParams, serverConnect)
+  | "cm" => some (clientParams, clientHandshake)
+  | "cv" => some (clientParams, clientVersionHandshake)
+  | "sm" => some (serverParams, serverHandshake)
+  | "sv" => some (serverParams, serverVersionHandshake)
+  | _ => none
+
+def handle (line : String) : String :=
+  match fields line with
+  | ["rv", inp] =>
+    match decHex inp with
+    | some i =>
+      let (s, a, b, c, e) := receiveVersion { inp := i, wcap := none, sent := [] }
+      s!"{a} {b} {c} {showErr e} {i.length - s.inp.length}"
+    | none => "bad-op"
+  | ["x", a, b] =>
+    match parseFault a, parseFault b with
+    | some fsc, some fcs =>
+      let o := session clientParams serverParams fsc fcs
+      s!"{showErr o.client} {showErr o.server} {encHex o.clientSent} {encHex o.serverSent}"
+    | _, _ => "bad-op"
+  | [fn, inp, cap] =>
+    match fnOf fn, decHex inp, parseCap cap with
+    | some (p, f), some i, some c =>
+      let (s, e) := f p { inp := i, wcap := c, sent := [] }
+      s!"{showErr e} {encHex s.sent} {i.length - s.inp.length}"
+    | _, _, _ => "bad-op"
+  | _ => "bad-op"
 
 end Mutagen.Driver.C34
